@@ -500,6 +500,20 @@ def _call_spec(R: Recorder, stream: str, ep: str, args, kwargs=None, *, fn=None,
     wfull = json.dumps(witness, default=str, sort_keys=True)
     _hb(wfull[:20000])
     outcome, value, exc = guarded(f, a, kw, limit)
+    if outcome == "hang":
+        # a call that really hangs (or blows up) does so again: the verdict is kept only if a second run of the same
+        # call, on freshly built arguments, also uses up its time.  One slow run on a starved machine (several
+        # thorough tiers at once: the wall-clock backstop, or profiling time charged to the process by other threads)
+        # is counted, not reported.
+        try:
+            a2 = [G.materialize(x) for x in args]
+            kw2 = {k: G.materialize(v) for k, v in kwargs.items()}
+            outcome2, value2, exc2 = guarded(f, a2, kw2, limit)
+        except G.ArgBuild:
+            outcome2, value2, exc2 = "hang", None, None
+        if outcome2 != "hang":
+            R.counts[(stream, ep, "slow-once")] = R.counts.get((stream, ep, "slow-once"), 0) + 1
+            outcome, value, exc = outcome2, value2, exc2
     dsrc = wfull[:3000]
     R.note(stream, ep, outcome if not outcome.startswith("foreign") else "foreign", dsrc, outcome == "ok")
     if outcome == "hang":
